@@ -583,8 +583,7 @@ class Judge:
 
     def reason(self, operand):
         """Why the real checker rejects: handler and class of the first complex-typed ordered operand."""
-        from ufl.algorithms.comparison_checker import CheckComparisons
-        from ufl.classes import Real
+        from ufl.algorithms.comparison_checker import CheckComparisons, ComplexComparisonError
         from ufl.corealg.map_dag import map_expr_dag
 
         cc = CheckComparisons()
@@ -592,7 +591,7 @@ class Judge:
             try:
                 for o in n.ufl_operands:
                     guarded(lambda o=o: map_expr_dag(cc, o), 1.0)
-            except BaseException:  # noqa: BLE001 - nested comparison rejected first / hang
+            except (Exception, ComplexComparisonError):  # noqa: BLE001 - a nested comparison is rejected first / hang
                 continue
             for o in n.ufl_operands:
                 if cc.nodetype.get(o) == "complex":
